@@ -62,8 +62,26 @@ def r06_4(ctx: Ctx):
                                         (new, L, new, 'left new interval (L, new)')):
             sts = C.stores_to(p, base=tgt, field='delta', tkind='attr')
             if not sts:
-                ctx.fail(rid, rn.short, rn.loc(), f'the length of the {name} is not refreshed',
-                         key=f'{rid}::{rn.short}::missing::{name}')
+                early = K.selection_delta_stores(ctx)['old' if tgt is old else 'new']
+                if not early:
+                    ctx.fail(rid, rn.short, rn.loc(), f'the length of the {name} is not refreshed',
+                             key=f'{rid}::{rn.short}::missing::{name}')
+                    continue
+                # written by the selection routine: right formula, but before the evaluation - the record is no
+                # longer updated atomically with the trial
+                for s_, val in early:
+                    n += 1
+                    exp = rf_pow(X(exp_r) - X(exp_l), RF.const(1) / N)
+                    okf = isinstance(val, RF) and C.strip_rf(val).equals(C.strip_rf(exp))
+                    ctx.check(okf, rid, s_.func.short, s_.loc(), f'delta of the {name} = (x_r - x_l)^(1/N)',
+                              f'delta of the {name} is {C.fmt(val)}; expected {C.fmt(exp)}',
+                              key=ctx.key_for(rid, s_.func, s_.node))
+                    if tgt is old:
+                        ctx.fail('R06.9', s_.func.short, s_.loc(),
+                                 f'the length of a stored interval ({s_.d["tdesc"]}) is rewritten by the selection '
+                                 f'routine, before the new trial is evaluated and inserted: if the evaluation fails '
+                                 f'(Solve swallows the exception) the stored length no longer equals (x - x_left)^(1/N)',
+                                 key=ctx.key_for('R06.9', s_.func, s_.node))
                 continue
             n += 1
             got = C.norm_self(ctx, rn, sts[-1].d['value'])
@@ -78,7 +96,8 @@ def r06_4(ctx: Ctx):
             ctx.check(ok2, rid, rn.short, rn.loc(sts[-1].node), f'delta of the {name} uses the pre-relink neighbours',
                       f'delta of the {name} is computed after the item is linked in (old.GetLeft() is then the new '
                       f'item itself)', key=f'{rid}::{rn.short}::after-relink::{name}')
-    ctx.floor(rid, 'delta stores in the renewal routine', n, 2)
+    ctx.rule('R06.9', 'stored items are rewritten only after the evaluation of the iteration succeeded')
+    ctx.floor(rid, 'delta stores of the iteration', n, 2)
     # seeding routine: middle.delta = (1/2 - 0)^(1/N), right.delta = (1 - 1/2)^(1/N)
     selfs = var(sdr.param_names[0])
     Ns = attr(attr(attr(selfs, 'task'), 'problem'), 'numberOfFloatVariables')
@@ -280,7 +299,7 @@ def check(ctx: Ctx):
                           're-run here')
         from . import c02, c04
         c02.r02_1(ctx)
-        c02.r02_7_8(ctx)
+        c02.r02_8_selection(ctx)
         c04.r04_4(ctx)
     if C.want(ctx, 'R06.6'):
         r06_6(ctx)
